@@ -31,6 +31,7 @@ import (
 	"math/big"
 	"math/rand/v2"
 	"sort"
+	"strings"
 	"testing"
 	"time"
 
@@ -636,11 +637,11 @@ func verdictV1(r *verifkit.Run, svc *Service, w *vf30World, setEpoch func(uint64
 	// the same body again with a damaged signature while the verdict on the intact token is cached
 	if err == nil && mut == "none" && rng.IntN(3) == 0 {
 		m2 := proto.Clone(m).(*protosession.SessionToken)
-		how := vf30MutSig(rng, m2.Signature, vf30Key{pub: m.Signature.Key})
+		how := vf30MutSig(rng, m2.Signature, vf30NewKey(rng))
 		_, err2 := svc.VerifySessionV1TokenMessage(m2, q.verb, q.cnr, q.obj)
-		ok2, _ := vf30RefV1(m2, w.epoch, q)
+		ok2, why2 := vf30RefV1(m2, w.epoch, q)
 		r.Eval(1)
-		if err2 == nil && !ok2 {
+		if err2 == nil && !ok2 && strings.HasPrefix(why2, "signature") {
 			r.Violation("honoured-invalid|v1|signature|replayed-body-after-cached-success", "V1 token body honoured with a damaged signature ("+how+") right after the intact token was verified", desc)
 		} else {
 			r.Count("v1_rejected_replayed_body_with_damaged_signature", 1)
@@ -824,11 +825,11 @@ func vf30CaseV2(r *verifkit.Run, svc *Service, w *vf30World, rng *rand.Rand, ci 
 		if m2.Origin != nil && rng.IntN(2) == 0 {
 			tgt = m2.Origin
 		}
-		how := vf30MutSig(rng, tgt.Signature, vf30Key{pub: tgt.Signature.Key})
+		how := vf30MutSig(rng, tgt.Signature, vf30NewKey(rng))
 		_, err2 := svc.VerifySessionTokenMessage(m2, reqVerb, reqCnr)
-		ok2, _ := vf30RefV2(m2, w.now, reqVerb, reqCnr)
+		ok2, why2 := vf30RefV2(m2, w.now, reqVerb, reqCnr)
 		r.Eval(1)
-		if err2 == nil && !ok2 {
+		if err2 == nil && !ok2 && strings.HasPrefix(why2, "signature") {
 			r.Violation("honoured-invalid|v2|signature|replayed-body-after-cached-success", "V2 token body honoured with a damaged signature ("+how+") right after the intact token was verified", desc)
 		} else {
 			r.Count("v2_rejected_replayed_body_with_damaged_signature", 1)
@@ -943,11 +944,11 @@ func vf30CaseBearer(r *verifkit.Run, svc *Service, w *vf30World, setEpoch func(u
 
 	if err == nil && mut == "none" && rng.IntN(3) == 0 {
 		m2 := proto.Clone(m).(*protoacl.BearerToken)
-		how := vf30MutSig(rng, m2.Signature, vf30Key{pub: m.Signature.Key})
+		how := vf30MutSig(rng, m2.Signature, vf30NewKey(rng))
 		_, err2 := svc.VerifyBearerTokenMessage(m2)
-		ok2, _ := vf30RefBearer(m2, w.epoch, reqCnr, owner, sender)
+		ok2, why2 := vf30RefBearer(m2, w.epoch, reqCnr, owner, sender)
 		r.Eval(1)
-		if err2 == nil && !ok2 {
+		if err2 == nil && !ok2 && strings.HasPrefix(why2, "signature") {
 			r.Violation("honoured-invalid|bearer|signature|replayed-body-after-cached-success", "bearer token body honoured with a damaged signature ("+how+") right after the intact token was verified", desc)
 		} else {
 			r.Count("bearer_rejected_replayed_body_with_damaged_signature", 1)
